@@ -26,6 +26,9 @@ claimed={
  "C07": dict(level="exploration", engine="venum", design="7 C07", technique=E2,
    text="For ~35 two-way message types (all versions where layouts differ, five dialects) a generator enumerates in-domain values (full products of boundary menus where <= 10^6, otherwise all pairs plus single sweeps; lists of 0..3 (thorough 4, some 255) elements; every terminal parameter ID and all pairs); each value must satisfy Parse(Encode(v)) == v, Encode(Parse(Encode(v))) == Encode(v) and Encode(v) == an independent reference encoder. Helpers: BCD phone/time conversions on every byte value per position and position pair, UTF82GBK(GBK2UTF8(x)) on every GBK code point, String2FillingBytes for all (len,size) <= 40.",
    note="Reference encoders harness/checks/c07_ref.go + harness/ref/bodies07.go; no independent reference for the HLJ/HN/SC alarm-sign widths (round-trip oracles only there). Non-ASCII text only in fields the library itself converts to GBK. Known findings: parameters 0x18/0x19/0x21 (golden-pinned), 2011 registration with long plate, two GBK code points of x/text."),
+ "C08": dict(level="exploration", engine="venum", design="7 C08", technique=E2,
+   text="A reference reader built from the standard's tables as data (base block, 32 alarm bits, single-bit status flags, extended-vehicle/IO bits, a dozen item layouts; bit -> Go field bound by reflection) is compared with the library on: alarm and status words with 0, all, every single bit, every pair, every word with <=3 (thorough 4) bits set or cleared, all 2^16 values of each half, all alarm x status bit pairs, and in the thorough tier every one of the 2^32 alarm and 2^32 status words; full products of scalar boundary menus; BCD digit sweeps; every item ID x every length 0..max+2 x content menus, full 16-bit/8-bit value ranges of the small items; all sequences of 1..3 (thorough 4) items from a 46-item menu incl. unknown and duplicate IDs; each through 0x0200, every slot of 0x0704 batches and 0x0801.",
+   note="Reference ref/location08.go; status bits 8-9 (two-bit load field), calendar validity and tyre-pressure marker semantics are not claimed. Known findings: item 0x11 area ID (golden-pinned), item 0x06 signedness."),
  "C09": dict(level="model_checking", engine="vsched", design="7 C09", technique=E1,
    text="For 24 scenarios (8 histories x 3 delivery modes) all schedules of reader, writer and terminal within 2 (thorough 3) deviations are executed on the real connection code; every Message kept from a read callback is compared with its snapshot at every later callback and at quiescence, replies and reassembled bodies with the reference computed from the snapshots.",
    note="Same trusted base as C06."),
